@@ -287,6 +287,11 @@ func checkFirst(ctx *Ctx, r *Result) {
 			if p.Rets[1].Key() != "nil" {
 				good, detail = false, "not-found path returns a non-nil slice"
 			}
+			// (callers may test the value instead of the flag: an absent
+			// header reads as the empty string)
+			if p.Rets[0].Key() != `""` {
+				good, detail = false, "not-found path returns a value other than the empty string: "+p.Rets[0].Key()
+			}
 			if present(p) && nonEmpty == -1 {
 				good, detail = false, "found=false although the key is present with a value"
 			}
